@@ -56,12 +56,13 @@ VARIABLES
   vrep,      \* node -> time at which it was last handed a replication reply from a voter of its configuration
   rlast,     \* <<node, voter>> -> line of the last replication reply from that voter handed to the node
   rtime,     \* <<node, voter>> -> time of the last replication reply from that voter handed to the node
+  cfgv,      \* <<index, term>> -> voters of the configuration entry with that index and term
   inhand,    \* rpc id -> [to, inc, kind] : delivered to a handler that has not returned yet
   pgr,       \* <<node, send time, term>> -> voters whose prevote grants of that round were handed to the node
   bad        \* set of violation records
 
 vars == <<l, meta, dur, pstate, maxterm, votes, applied, cursor, leaders, lfirst, committed, cterm,
-          reqs, hpre, stat, inv, wdone, rdone, retd, dead, mtrack, mwait, finals, healed, s5, hl, fsmc, taken, sopen, isidx, wlab, lastae, s7, vrep, rlast, rtime, inhand, pgr, bad>>
+          reqs, hpre, stat, inv, wdone, rdone, retd, dead, mtrack, mwait, finals, healed, s5, hl, fsmc, taken, sopen, isidx, wlab, lastae, s7, vrep, rlast, rtime, cfgv, inhand, pgr, bad>>
 
 -----------------------------------------------------------------------------
 Ev == Trace[l]
@@ -681,6 +682,20 @@ C09_CfgInLog ==
     IF i <= lg.base \/ (HasIdx(lg, i) /\ At(lg, i).k = 2 /\ At(lg, i).v = Ev.cfg.cs) THEN {}
     ELSE {V("C09", "ConfigurationInForceNotInLog", <<Ev.node, Ev.cfg.cs, lg.base, LastIdx(lg)>>)}
 
+\* one change at a time (the premise of the safety argument for single-server changes, and what
+\* AddServer / RemoveServer promise by refusing with ErrPendingConfiguration): a leader does not
+\* append a configuration entry while a configuration entry it appended earlier IN THE SAME TERM,
+\* with other voters, has not been reported committed.  (Across terms the code does admit it - a
+\* new leader does not know of an uncommitted entry it inherited: that is known finding S5's
+\* territory, not this clause's.)  Step-scheduler scenarios only: `committed' is current there.
+C09_OneAtATime ==
+  IF ~(Is("log_append") /\ ~Has("err") /\ Ev.ctx = "" /\ Len(Ev.entries) = 1 /\ Ev.entries[1].k = 2 /\ "cv" \in DOMAIN Ev.entries[1]
+       /\ meta.controlled /\ ~healed) THEN {} ELSE
+    LET lg == Log(Ev.node)  e2 == Ev.entries[1]
+        prior == {j \in (lg.base + 1)..LastIdx(lg) : At(lg, j).k = 2 /\ At(lg, j).t = e2.t /\ j \notin DOMAIN committed
+                    /\ <<j, e2.t>> \in DOMAIN cfgv /\ cfgv[<<j, e2.t>>] # Range(e2.cv)} IN
+    IF prior # {} THEN {V("C09", "SecondChangeBeforeFirstCommitted", <<Ev.node, e2.t, prior, e2.i>>)} ELSE {}
+
 \* when a leader's commit index passes i, entry i is durable on a majority of the voters of
 \* its configuration in force (now or at its previous status report)
 C09_CommitMajority ==
@@ -829,7 +844,7 @@ NewBad ==
              \cup C04_AckDurable \cup C04_Replay \cup C05_Reads \cup C17_Lease \cup C17_Refusal \cup C14_Abort \cup C14_CatchUp \cup C18_Panic \cup Recorder
              \cup C15_Converge \cup C18_Futures \cup C09_FutureTruth
              \cup C16_Healthy \cup C16_PrevoteMajority \cup C10_Snapshot \cup C10_Fsm \cup C11_Log
-             \cup C09_CfgAgreement \cup C09_LeaderVotes \cup C09_VoteRequests \cup C09_CommitMajority \cup C09_CfgInLog
+             \cup C09_CfgAgreement \cup C09_LeaderVotes \cup C09_VoteRequests \cup C09_CommitMajority \cup C09_CfgInLog \cup C09_OneAtATime
       \* violations of the replication-safety clauses after the S5 signature carry its tag
       tagged == {IF (s5 \/ KF_S5) /\ b.p \in {"C01", "C02", "C03", "C04", "C05", "C07", "C09", "C15"}
                       /\ b.c \in {"SMSafety", "LeaderCompleteness", "FutureWrongPosition", "FutureWrongResult", "AppliedNotOnMajorityDisk",
@@ -854,7 +869,7 @@ Init ==
   /\ dur = <<>> /\ pstate = <<>> /\ maxterm = <<>> /\ votes = {} /\ applied = <<>> /\ cursor = <<>>
   /\ leaders = <<>> /\ lfirst = {} /\ committed = <<>> /\ cterm = <<>> /\ reqs = <<>> /\ hpre = <<>> /\ stat = <<>>
   /\ inv = <<>> /\ wdone = {} /\ rdone = {} /\ retd = {} /\ dead = {} /\ mtrack = <<>> /\ mwait = <<>>
-  /\ finals = <<>> /\ healed = FALSE /\ s5 = FALSE /\ hl = NoHealthy /\ fsmc = <<>> /\ taken = {} /\ sopen = <<>> /\ isidx = <<>> /\ wlab = <<>> /\ lastae = <<>> /\ s7 = {} /\ vrep = <<>> /\ rlast = <<>> /\ rtime = <<>> /\ inhand = <<>> /\ pgr = <<>> /\ bad = {}
+  /\ finals = <<>> /\ healed = FALSE /\ s5 = FALSE /\ hl = NoHealthy /\ fsmc = <<>> /\ taken = {} /\ sopen = <<>> /\ isidx = <<>> /\ wlab = <<>> /\ lastae = <<>> /\ s7 = {} /\ vrep = <<>> /\ rlast = <<>> /\ rtime = <<>> /\ cfgv = <<>> /\ inhand = <<>> /\ pgr = <<>> /\ bad = {}
 
 Next ==
   /\ l <= Len(Trace)
@@ -894,6 +909,13 @@ Next ==
   /\ rlast' = NextRlast
   /\ rtime' = (IF Is("scenario") THEN <<>> ELSE IF Is("reply") /\ Ev.kind \in {"ae", "is"} THEN Put(rtime, <<Ev.from, Ev.to>>, Ev.t) ELSE rtime)
   /\ pgr' = NextPgr
+  /\ cfgv' = (IF Is("scenario") THEN <<>>
+              ELSE IF Is("log_append") /\ ~Has("err")
+                THEN LET cs == {j \in 1..Len(Ev.entries) : Ev.entries[j].k = 2 /\ "cv" \in DOMAIN Ev.entries[j]} IN
+                     [key \in DOMAIN cfgv \cup {<<Ev.entries[j].i, Ev.entries[j].t>> : j \in cs} |->
+                        IF key \in DOMAIN cfgv THEN cfgv[key]
+                        ELSE LET jj == CHOOSE j \in cs : <<Ev.entries[j].i, Ev.entries[j].t>> = key IN Range(Ev.entries[jj].cv)]
+              ELSE cfgv)
   /\ inhand' = (IF Is("scenario") THEN <<>>
                 ELSE IF Is("deliver") THEN Put(inhand, Ev.id, [to |-> Ev.to, inc |-> Ev.inc, kind |-> Ev.kind])
                 ELSE IF (Is("handled") \/ Is("drop")) /\ Ev.id \in DOMAIN inhand THEN Del(inhand, Ev.id)
